@@ -79,6 +79,7 @@ package grpcgcp
 //@ inv gcpBalancer.mu I17 [C03] := forall sc balancer.SubConn :: {sc in this.refreshingScRefs} sc in this.refreshingScRefs ==> this.refreshingScRefs[sc].subConn in this.scRefs
 //@ inv gcpBalancer.mu I18 [C03] := forall r *subConnRef :: {isa(r)} isa(r) ==> r.subConn in this.scRefs
 // C03: a non-empty pool has a validated size range and, for minSize <= maxSize, never more than maxSize channels
+//@ inv gcpBalancer.mu I19 [C03] := this.cfg != nil ==> this.cfg.GetChannelPool().GetMinSize() >= 1
 //@ inv gcpBalancer.mu I15 [C03] := (this.cfg == nil ==> len(this.scRefs) == 0) && (this.cfg != nil ==> this.cfg.GetChannelPool().GetMaxSize() >= 1 && (this.cfg.GetChannelPool().GetMinSize() <= this.cfg.GetChannelPool().GetMaxSize() ==> len(this.scRefs) <= this.cfg.GetChannelPool().GetMaxSize()))
 //@ inv gcpBalancer.mu I6 [C04] := this.csEvltr.numReady == count(this.scStates, connectivity.Ready) && this.csEvltr.numConnecting == count(this.scStates, connectivity.Connecting) && this.csEvltr.numTransientFailure == count(this.scStates, connectivity.TransientFailure)
 
@@ -158,6 +159,9 @@ package grpcgcp
 //@   ensures [C20.addrs-stored] $ret0 == nil ==> gb.addrs == ccs.ResolverState.Addresses
 //@   ensures [C17.fixed] old(gb.cfg != nil) ==> gb.cfg == old(gb.cfg) && gb.methodCfg == old(gb.methodCfg) && gb.unresponsiveDetection == old(gb.unresponsiveDetection)
 //@   ensures [C03.remove-only-old] $removed == old($removed)
+// an update that finds the pool empty (the first one with addresses, or one that re-creates an emptied pool) and whose
+// connection factory does not fail leaves exactly max(1, minSize) channels
+//@   ensures [C03.pool-at-min] $ret0 == nil && old(len(gb.scRefs)) == 0 && $newFail == old($newFail) ==> len(gb.scRefs) == max(1, minSizeOf(gb))
 //@   loop 1 invariant forall sc in gb.refreshingScRefs :: $visited(sc) ==> $addrs[sc] == addrs && $connectRequested[sc]
 //@   loop 1 invariant forall sc in gb.scRefs :: !old(sc in gb.scRefs) ==> $addrs[sc] == addrs && $connectRequested[sc]
 //@   loop 2 invariant forall sc in gb.scRefs :: $visited(sc) ==> $addrs[sc] == addrs && $connectRequested[sc]
@@ -219,6 +223,7 @@ package grpcgcp
 //@   requires gb.cfg != nil && lockinv(gb.mu)
 //@   ensures lockinv(gb.mu)
 //@   ensures [C03.initial] $newFail == old($newFail) ==> len(gb.scRefs) == max(old(len(gb.scRefs)), minSizeOf(gb))
+//@   ensures [C03.fail-mono] $newFail >= old($newFail)
 //@   ensures [C03.initial-bound] len(gb.scRefs) <= max(old(len(gb.scRefs)), minSizeOf(gb)) && len(gb.scRefs) >= old(len(gb.scRefs))
 //@   ensures [C09.list-grows] len(gb.scRefList) >= old(len(gb.scRefList)) && listPrefix(gb)
 //@   ensures [C01.frame] homeFrame(gb) && affUnchanged(gb) && fbUnchanged(gb)
@@ -246,6 +251,7 @@ package grpcgcp
 //@   ensures [C17.no-alias] fresh(gb.cfg) && fresh(gb.cfg.ApiConfig) && fresh(gb.cfg.ApiConfig.ChannelPool)
 //@   ensures [C17.detection-flag] gb.unresponsiveDetection == (gb.cfg.ApiConfig.ChannelPool.UnresponsiveCalls > 0 && gb.cfg.ApiConfig.ChannelPool.UnresponsiveDetectionMs > 0)
 //@   ensures [C03.initial] $newFail == old($newFail) ==> len(gb.scRefs) == max(old(len(gb.scRefs)), minSizeOf(gb))
+//@   ensures [C03.fail-mono] $newFail >= old($newFail)
 //@   ensures [C09.list-grows] len(gb.scRefList) >= old(len(gb.scRefList)) && listPrefix(gb)
 //@   ensures [C01.frame] homeFrame(gb) && affUnchanged(gb) && fbUnchanged(gb)
 //@   ensures [C20.pool-addrs] (forall sc in gb.scRefs :: !old(sc in gb.scRefs) ==> $addrs[sc] == gb.addrs && $connectRequested[sc]) && gb.addrs == old(gb.addrs)
